@@ -3,6 +3,7 @@ package design
 import (
 	"fmt"
 	"regexp"
+	"sort"
 	"strings"
 
 	"verifharness/internal/lp"
@@ -537,6 +538,47 @@ func (g *gen) securityShapes() {
 		return sc
 	}
 	switch g.o.Index % 6 {
+	case 2, 3:
+		// two schemes of ONE kind in a service: the Auther interface has one function per kind,
+		// the requirement chains name both schemes
+		kind := "jwt"
+		if g.o.Index%6 == 3 {
+			kind = "apikey"
+		}
+		var first *Scheme
+		for _, sc := range g.d.Schemes {
+			if sc.Kind == kind {
+				first = sc
+			}
+		}
+		if first == nil {
+			first = ensure(kind)
+		}
+		second := &Scheme{Name: kind + "_two", Kind: kind}
+		if kind == "jwt" {
+			second.Scopes = []string{"two:read", "two:write"}
+		}
+		g.d.Schemes = append(g.d.Schemes, second)
+		m := g.plainMethod(s, "either")
+		m.Security = []Req{{Schemes: []string{first.Name}}, {Schemes: []string{second.Name}}}
+		if kind == "jwt" {
+			m.Security[1].Scopes = []string{"two:write"}
+		}
+		g.credentials(m, m.Security)
+		if kind == "apikey" {
+			// the two keys travel in headers of their own
+			for attr := range m.Creds {
+				m.HTTP.Headers = append(m.HTTP.Headers, Mapped{Attr: attr, Wire: "X-" + strings.ReplaceAll(attr, "_", "-")})
+			}
+			sort.Slice(m.HTTP.Headers, func(i, j int) bool { return m.HTTP.Headers[i].Attr < m.HTTP.Headers[j].Attr })
+			both := g.plainMethod(s, "both")
+			both.Security = []Req{{Schemes: []string{first.Name, second.Name}}}
+			g.credentials(both, both.Security)
+			for attr := range both.Creds {
+				both.HTTP.Headers = append(both.HTTP.Headers, Mapped{Attr: attr, Wire: "X-" + strings.ReplaceAll(attr, "_", "-")})
+			}
+			sort.Slice(both.HTTP.Headers, func(i, j int) bool { return both.HTTP.Headers[i].Attr < both.HTTP.Headers[j].Attr })
+		}
 	case 4:
 		if scoped == nil {
 			scoped = ensure("jwt")
@@ -586,6 +628,12 @@ func (g *gen) credentials(m *Method, reqs []Req) {
 	}
 	have := map[string]bool{}
 	add := func(attr, cred string) {
+		if _, dup := m.Creds[attr]; dup {
+			if !strings.HasPrefix(cred, "apikey:") {
+				return // one token / basic pair serves every scheme of that kind
+			}
+			attr = attr + "_" + strings.TrimPrefix(cred, "apikey:")
+		}
 		m.Creds[attr] = cred
 		m.Payload.Type.Object = append(m.Payload.Type.Object, &Field{Name: attr, Att: &Att{Type: &Type{Prim: "String"}}})
 		m.Payload.Required = append(m.Payload.Required, attr)
